@@ -1,12 +1,26 @@
 // Scenario interpreter for the MsgPack archive:  scn_msgpack load <scenarios.ndjson>
 // One output line per (scenario, medium) run; std::terminate / hang / crash are logged as observations of the run
 // (crash-contained execution in forked children, see vh::ForkedRunner).
+#include "vh_alloc.h"
+#define VH_WITH_ALLOC 1
 #include "vh_script.h"
 #include "bitserializer/msgpack_archive.h"
 
 int main(int argc, char** argv)
 {
-	if (argc < 3 || (std::string(argv[1]) != "load" && std::string(argv[1]) != "save")) { fprintf(stderr, "usage: scn_msgpack load|save <file>\n"); return 3; }
+	if (argc < 3 || (std::string(argv[1]) != "load" && std::string(argv[1]) != "save" && std::string(argv[1]) != "fault")) { fprintf(stderr, "usage: scn_msgpack load|save <file>\n"); return 3; }
+	if (std::string(argv[1]) == "fault")
+	{
+		// each line: scenario + "fault":{"kind":..,"k":..}
+		const auto flines = vh::ReadLines(argv[2]);
+		return vh::ForkedRunner(flines.size(), [&](size_t r) {
+			rapidjson::Document scn;
+			scn.Parse(flines[r].c_str());
+			const std::string doc = scn.HasMember("doc") ? vh::BytesFromJson(scn["doc"]) : std::string();
+			const std::string res = vh::RunFault<BitSerializer::MsgPack::MsgPackArchive>(scn, doc, scn["fault"]["kind"].GetString(), scn["fault"]["k"].GetInt64());
+			fprintf(stdout, "{\"run\":%zu,\"id\":\"%s\",%s\n", r, scn["id"].GetString(), res.c_str() + 1);
+		});
+	}
 	if (std::string(argv[1]) == "save")
 	{
 		const auto slines = vh::ReadLines(argv[2]);
